@@ -93,13 +93,19 @@ package parser
 //@   loop 0 invariant forall k int :: 0 <= k && k < len(packets) ==> validPacket(packets[k])
 
 // A frame length handed to DecodeWithLen becomes an allocation: it must not be negative
-// (make would panic) and the allocation is exactly that length.
+// (make would panic) and the allocation is exactly that length. The packet is decode() of the next len input bytes.
 //@ func DecodeWithLen
 //@   requires len >= 0 [C11.alloc.nonneg]
-//@   requires r != nil
+//@   requires r != nil && inpos(r) >= 0
 //@   modifies inpos(r), maxalloc()
 //@   ensures maxalloc() == max(old(maxalloc()), len) [C11.alloc.exact]
-//@   ensures result1 == nil ==> result0 != nil
+//@   ensures result1 == nil ==> result0 != nil && inpos(r) == old(inpos(r)) + len [C11.dwl.consumed]
+//@   ensures old(inpos(r)) + len <= inlen(r) && (binaryFrame || (len > 0 && 48 <= inbyte(r, old(inpos(r))) && inbyte(r, old(inpos(r))) <= 54)) ==> result1 == nil [C11.dwl.accepts]
+//@   ensures result1 == nil && binaryFrame ==> result0.IsBinary && result0.Type == 4 && len(result0.Data) == len [C11.dwl.bin.header]
+//@   ensures result1 == nil && binaryFrame ==> forall i int :: 0 <= i && i < len ==> result0.Data[i] == inbyte(r, old(inpos(r)) + i) [C11.dwl.bin.data]
+//@   ensures result1 == nil && !binaryFrame ==> len > 0 [C11.dwl.text.nonempty]
+//@   ensures result1 == nil && !binaryFrame && inbyte(r, old(inpos(r))) != 98 ==> !result0.IsBinary && result0.Type == inbyte(r, old(inpos(r))) - 48 && len(result0.Data) == len - 1 [C11.dwl.text.header]
+//@   ensures result1 == nil && !binaryFrame && inbyte(r, old(inpos(r))) != 98 ==> forall i int :: 0 <= i && i < len - 1 ==> result0.Data[i] == inbyte(r, old(inpos(r)) + 1 + i) [C11.dwl.text.data]
 
 //@ func Decode
 //@   requires r != nil
